@@ -175,7 +175,9 @@ struct Case {
     id: String,
     kinds: Vec<Kind>,
     never_transcode: bool,
-    async_path: bool,
+    /// None = synchronous path; Some(n) = --concurrency n (asynchronous path, n associations)
+    concurrency: Option<usize>,
+    ignore_sop_class: bool,
     /// contexts the harness expects the tool to propose, sorted; `mask` bit k = accept context k
     expected: Vec<(String, String)>,
     mask: u32,
@@ -261,10 +263,78 @@ fn build_cases(check: &Check) -> Vec<Case> {
                         ),
                         kinds: kinds.clone(),
                         never_transcode: never,
-                        async_path,
+                        concurrency: if async_path { Some(1) } else { None },
+                        ignore_sop_class: false,
                         expected: expected.clone(),
                         mask,
                     });
+                }
+            }
+        }
+    }
+    // family opts: the option space crossed with the execution path, on file sets of two SOP classes:
+    // {sync, --concurrency 1, --concurrency 2} x {no flag, --never-transcode, --ignore-sop-class, both}
+    let opt_sets: Vec<Vec<Kind>> = {
+        let k = |class, ts, big| Kind { class, ts, big };
+        let mut v = vec![vec![k(CT, RLE, false), k(MR, ILE, true)], vec![k(CT, ILE, false), k(MR, ELE, false)]];
+        if !quick {
+            v.push(vec![k(CT, ENCAP, false), k(MR, RLE, true)]);
+            v.push(vec![k(MR, ELE, true), k(CT, ELE, false)]);
+            v.push(vec![k(CT, RLE, false), k(MR, MPEG2, false), k(CT, ILE, true)]);
+        }
+        v
+    };
+    for kinds in &opt_sets {
+        for conc in [None, Some(1usize), Some(2)] {
+            for never in [false, true] {
+                for ignore in [false, true] {
+                    let expected = expected_contexts(kinds, never);
+                    let (ca, cb) = (kinds[0].class, kinds.iter().find(|k| k.class != kinds[0].class).unwrap().class);
+                    // quick: named policies; thorough: every subset
+                    let masks: Vec<(String, u32)> = if quick {
+                        let m = |f: &dyn Fn(&str, &str) -> bool| expected.iter().enumerate().fold(0u32, |acc, (i, (a, t))| if f(a, t) { acc | 1 << i } else { acc });
+                        vec![
+                            ("all".to_string(), m(&|_, _| true)),
+                            ("refuse-first-class".to_string(), m(&|a, _| a != ca)),
+                            ("refuse-second-class".to_string(), m(&|a, _| a != cb)),
+                            ("only-implicit-le-of-second-class".to_string(), m(&|a, t| a == cb && t == ILE)),
+                        ]
+                    } else {
+                        (0..(1u32 << expected.len())).map(|m| (format!("accept-{:0w$b}", m, w = expected.len()), m)).collect()
+                    };
+                    // quick: the second file set only on the asynchronous paths with exactly one flag and two policies
+                    let second_set_quick = quick && kinds != &opt_sets[0];
+                    if second_set_quick && (conc.is_none() || never == ignore) {
+                        continue;
+                    }
+                    let mut seen = vec![];
+                    for (pname, mask) in masks {
+                        if second_set_quick && !(pname == "refuse-first-class" || pname == "only-implicit-le-of-second-class") {
+                            continue;
+                        }
+                        if seen.contains(&mask) {
+                            continue;
+                        }
+                        seen.push(mask);
+                        cases.push(Case {
+                            id: format!(
+                                "opts/{}/{}{}/{}/{pname}",
+                                kinds.iter().map(|k| k.name()).collect::<Vec<_>>().join("+"),
+                                if never { "never-transcode" } else { "transcode" },
+                                if ignore { "+ignore-sop-class" } else { "" },
+                                match conc {
+                                    None => "sync".to_string(),
+                                    Some(n) => format!("concurrency-{n}"),
+                                },
+                            ),
+                            kinds: kinds.clone(),
+                            never_transcode: never,
+                            concurrency: conc,
+                            ignore_sop_class: ignore,
+                            expected: expected.clone(),
+                            mask,
+                        });
+                    }
                 }
             }
         }
@@ -294,7 +364,7 @@ struct Session {
     protocol_errors: Vec<String>,
 }
 
-fn serve(mut s: TcpStream, accept: &dyn Fn(&str, &str) -> bool, verbose: bool) -> Session {
+fn serve(mut s: TcpStream, accept: &(dyn Fn(&str, &str) -> bool + Sync), verbose: bool) -> Session {
     let mut ses = Session::default();
     let _ = s.set_read_timeout(Some(IO_LIMIT));
     let _ = s.set_write_timeout(Some(IO_LIMIT));
@@ -515,8 +585,13 @@ fn run_case(l: &mut Attempt, check: &Check, c: &Case, dir: &Path, exe: &Path) {
     let class = |kind: &str, f: Option<&FileSpec>| {
         json!({
             "kind": kind,
-            "path": if c.async_path { "async" } else { "sync" },
+            "path": match c.concurrency {
+                None => "sync",
+                Some(1) => "async",
+                Some(_) => "async-2",
+            },
             "never_transcode": c.never_transcode,
+            "ignore_sop_class": c.ignore_sop_class,
             "files": c.kinds.len(),
             "file_ts": f.map(|f| ts_name(f.kind.ts)).unwrap_or("-"),
             "file_class": f.map(|f| class_name(f.kind.class)).unwrap_or("-"),
@@ -544,70 +619,99 @@ fn run_case(l: &mut Attempt, check: &Check, c: &Case, dir: &Path, exe: &Path) {
     if c.never_transcode {
         args.push("--never-transcode");
     }
-    if c.async_path {
-        args.extend(["--concurrency", "1"]);
+    if c.ignore_sop_class {
+        args.push("--ignore-sop-class");
+    }
+    let conc = c.concurrency.map(|n| n.to_string());
+    if let Some(n) = &conc {
+        args.extend(["--concurrency", n.as_str()]);
     }
     let log = dir.join("storescu.log");
     let mut p = proc::spawn(exe, &args, dir, if verbose { Out::Inherit } else { Out::File(&log) }).expect("spawn storescu");
 
-    // accept one connection (or see the tool exit without connecting)
+    // accept every connection the tool makes (one per association), each served by its own thread, until
+    // the tool exits
     let t0 = Instant::now();
-    let mut session: Option<Session> = None;
-    let mut nap = Duration::from_micros(200);
-    loop {
-        match listener.accept() {
-            Ok((s, _)) => {
-                s.set_nonblocking(false).expect("blocking");
-                let acc = |a: &str, t: &str| accepted_set.iter().any(|(x, y)| x == a && y == t);
-                session = Some(serve(s, &acc, verbose));
-                break;
-            }
-            Err(e) if e.kind() == std::io::ErrorKind::WouldBlock => {
-                if p.exited().is_some() || t0.elapsed() > Duration::from_secs(15) {
-                    break;
+    let acc = |a: &str, t: &str| accepted_set.iter().any(|(x, y)| x == a && y == t);
+    let mut overran = false;
+    let sessions: Vec<Session> = std::thread::scope(|sc| {
+        let mut handles = vec![];
+        let mut nap = Duration::from_micros(200);
+        let mut exited_seen = false;
+        loop {
+            match listener.accept() {
+                Ok((s, _)) => {
+                    s.set_nonblocking(false).expect("blocking");
+                    let acc = &acc;
+                    handles.push(sc.spawn(move || serve(s, acc, verbose)));
+                    nap = Duration::from_micros(200);
                 }
-                std::thread::sleep(nap);
-                nap = (nap * 2).min(Duration::from_millis(4));
+                Err(e) if e.kind() == std::io::ErrorKind::WouldBlock => {
+                    if exited_seen || t0.elapsed() > Duration::from_secs(60) {
+                        break;
+                    }
+                    if p.exited().is_some() {
+                        exited_seen = true; // one more look at the backlog
+                        continue;
+                    }
+                    std::thread::sleep(nap);
+                    nap = (nap * 2).min(Duration::from_millis(4));
+                }
+                Err(_) => break,
             }
-            Err(_) => break,
         }
-    }
+        if !exited_seen {
+            overran = true;
+            p.kill(); // unblocks the serving threads
+        }
+        handles.into_iter().filter_map(|h| h.join().ok()).collect()
+    });
     let status = proc::status_of(p.wait_deadline(Duration::from_secs(15)));
     p.kill();
     drop(listener);
 
-    let Some(ses) = session else {
+    if sessions.is_empty() {
         l.outcome("tool-did-not-connect");
         l.fail_transient(class("tool-did-not-connect", None), base_detail(json!({ "status": status.describe(), "output": read_log(&log) })));
         return;
-    };
-    if ses.timed_out {
+    }
+    let ends: Vec<String> = sessions.iter().map(|s| s.end.clone()).collect();
+    if sessions.iter().any(|s| s.timed_out) {
         l.outcome("FAIL-no-pdu-within-limit");
-        l.fail_transient(class("tool-silent-beyond-limit", None), base_detail(json!({ "limit_s": IO_LIMIT.as_secs(), "stores_received": ses.stores.len(), "output": read_log(&log) })));
+        l.fail_transient(class("tool-silent-beyond-limit", None), base_detail(json!({ "limit_s": IO_LIMIT.as_secs(), "stores_received": sessions.iter().map(|s| s.stores.len()).sum::<usize>(), "output": read_log(&log) })));
         return;
     }
-    if status == proc::Ran::Timeout {
+    if status == proc::Ran::Timeout || overran {
         l.outcome("FAIL-timeout");
-        l.fail_transient(class("tool-timeout", None), base_detail(json!({ "session_end": ses.end, "output": read_log(&log) })));
+        l.fail_transient(class("tool-timeout", None), base_detail(json!({ "session_end": ends, "output": read_log(&log) })));
+        return;
+    }
+    if sessions.len() != c.concurrency.unwrap_or(1) {
+        l.outcome("FAIL-association-count");
+        l.fail(class("association-count", None), base_detail(json!({ "associations": sessions.len(), "expected": c.concurrency.unwrap_or(1), "output": read_log(&log) })));
         return;
     }
     // the harness's model of the proposal must be what the tool proposed, else "every policy" is not what was run
-    let mut proposed: Vec<(String, String)> = ses.proposed.iter().flat_map(|p| p.ts.iter().map(move |t| (p.abs.clone(), t.clone()))).collect();
-    proposed.sort();
-    if proposed != c.expected || ses.proposed.iter().any(|p| p.ts.len() != 1) {
-        check.machinery_error(&format!("case {}: the tool proposed {:?}, the harness expected {:?}", c.id, proposed, c.expected));
-        return;
+    for ses in &sessions {
+        let mut proposed: Vec<(String, String)> = ses.proposed.iter().flat_map(|p| p.ts.iter().map(move |t| (p.abs.clone(), t.clone()))).collect();
+        proposed.sort();
+        if proposed != c.expected || ses.proposed.iter().any(|p| p.ts.len() != 1) {
+            check.machinery_error(&format!("case {}: the tool proposed {:?}, the harness expected {:?}", c.id, proposed, c.expected));
+            return;
+        }
     }
     l.nontrivial = true;
-    if !ses.protocol_errors.is_empty() {
+    let protocol_errors: Vec<String> = sessions.iter().flat_map(|s| s.protocol_errors.clone()).collect();
+    if !protocol_errors.is_empty() {
         l.outcome("FAIL-protocol");
-        l.fail(class("protocol", None), base_detail(json!({ "errors": ses.protocol_errors, "output": read_log(&log) })));
+        l.fail(class("protocol", None), base_detail(json!({ "errors": protocol_errors, "output": read_log(&log) })));
         return;
     }
 
     // every received store: context accepted, abstract syntax = file's SOP class, bytes decode to the file's data set
     let mut sent_count = vec![0usize; files.len()];
-    for r in &ses.stores {
+    let stores: Vec<(&Received, Option<&(String, String)>)> = sessions.iter().flat_map(|s| s.stores.iter().map(move |r| (r, s.accepted.get(&r.pc)))).collect();
+    for (r, ctx) in stores.iter().copied() {
         let inst = r.cmd.sop_instance.clone().unwrap_or_default();
         let Some(fi) = files.iter().position(|f| f.instance == inst) else {
             l.outcome("FAIL-unknown-instance");
@@ -616,7 +720,6 @@ fn run_case(l: &mut Attempt, check: &Check, c: &Case, dir: &Path, exe: &Path) {
         };
         let f = &files[fi];
         sent_count[fi] += 1;
-        let ctx = ses.accepted.get(&r.pc);
         let info = |extra: Value| {
             base_detail(json!({ "file": f.kind.name(), "sent_on_context_id": r.pc,
                 "context": ctx.map(|(a, t)| format!("{}/{}", class_name(a), ts_name(t))), "data_pdvs": r.data_pdvs, "extra": extra }))
@@ -627,7 +730,7 @@ fn run_case(l: &mut Attempt, check: &Check, c: &Case, dir: &Path, exe: &Path) {
             Some(("command-and-data-on-different-contexts", json!({ "command_pc": r.cmd_pc, "data_pc": r.pc })))
         } else if ctx.is_none() {
             Some(("context-not-accepted", json!(null)))
-        } else if ctx.unwrap().0 != f.kind.class {
+        } else if !c.ignore_sop_class && ctx.unwrap().0 != f.kind.class {
             Some(("wrong-abstract-syntax", json!({ "file_sop_class": f.kind.class, "context_abstract_syntax": ctx.unwrap().0 })))
         } else if r.cmd.sop_class.as_deref() != Some(f.kind.class) {
             Some(("command-sop-class", json!({ "file_sop_class": f.kind.class, "affected_sop_class_uid": r.cmd.sop_class })))
@@ -645,11 +748,11 @@ fn run_case(l: &mut Attempt, check: &Check, c: &Case, dir: &Path, exe: &Path) {
     // files that were not sent must be the ones without an admissible context
     for (fi, f) in files.iter().enumerate() {
         let admissible = accepted_set.iter().any(|(a, t)| {
-            a == f.kind.class && (t == f.kind.ts || (native(t) && native(f.kind.ts)) || (!c.never_transcode && native(t) && f.native_pixels.is_some()))
+            (c.ignore_sop_class || a == f.kind.class) && (t == f.kind.ts || (native(t) && native(f.kind.ts)) || (!c.never_transcode && native(t) && f.native_pixels.is_some()))
         });
         if admissible && sent_count[fi] == 0 {
             l.outcome("FAIL-unsent-although-admissible");
-            l.fail(class("unsent-although-admissible", Some(f)), base_detail(json!({ "file": f.kind.name(), "session_end": ses.end, "status": status.describe(), "output": read_log(&log) })));
+            l.fail(class("unsent-although-admissible", Some(f)), base_detail(json!({ "file": f.kind.name(), "session_end": ends, "status": status.describe(), "output": read_log(&log) })));
             return;
         }
         if !admissible && sent_count[fi] > 0 {
@@ -659,17 +762,22 @@ fn run_case(l: &mut Attempt, check: &Check, c: &Case, dir: &Path, exe: &Path) {
         }
     }
     let sent: usize = sent_count.iter().sum();
-    let transcoded = ses.stores.iter().filter(|r| {
+    let transcoded = stores.iter().filter(|(r, ctx)| {
         let f = files.iter().find(|f| Some(&f.instance) == r.cmd.sop_instance.as_ref()).unwrap();
-        ses.accepted.get(&r.pc).map(|(_, t)| t != f.kind.ts).unwrap_or(false)
+        ctx.map(|(_, t)| t != f.kind.ts).unwrap_or(false)
     }).count();
-    let chunked = ses.stores.iter().any(|r| r.data_pdvs > 1);
-    let name = if ses.accepted.is_empty() {
+    let other_class = stores.iter().filter(|(r, ctx)| {
+        let f = files.iter().find(|f| Some(&f.instance) == r.cmd.sop_instance.as_ref()).unwrap();
+        ctx.map(|(a, _)| a != f.kind.class).unwrap_or(false)
+    }).count();
+    let chunked = stores.iter().any(|(r, _)| r.data_pdvs > 1);
+    let name = if accepted_set.is_empty() {
         "nothing-accepted-nothing-sent".to_string()
     } else {
         format!("sent-{sent}-of-{}{}{}", files.len(), if transcoded > 0 { "-transcoded" } else { "" }, if chunked { "-chunked" } else { "" })
+            + if other_class > 0 { "-on-other-class-context-as-ignore-sop-class-allows" } else { "" }
     };
-    l.outcome_with(&name, || json!({ "case": c.id, "session_end": ses.end, "status": status.describe() }));
+    l.outcome_with(&name, || json!({ "case": c.id, "session_end": ends, "status": status.describe() }));
 }
 
 fn main() {
@@ -678,10 +786,12 @@ fn main() {
         "file sets: every single file over SOP class {CT, MR} x transfer syntax {Implicit LE, Explicit LE, RLE Lossless (decodable), encapsulated uncompressed; thorough: + an opaque MPEG2 stub} (x {small 2x2, big 40x32} thorough), \
          pairs (small file, big file): quick 5 chosen pairs, thorough every ordered pair of (class, syntax) in both size orders, thorough + 3 triples; \
          x {default, --never-transcode} x {synchronous, --concurrency 1} (quick: singles default/sync + never/async, pairs default on both paths + never/sync); acceptor policies = EVERY subset of the presentation contexts the tool proposes (each proposes one syntax), \
-         which includes 'only Implicit LE of the other SOP class'. One tool process per case; distinct by case id; non-trivial = the association request was received and matched the expected proposal",
+         which includes 'only Implicit LE of the other SOP class'; \
+         family opts: file sets of two SOP classes (quick 2, thorough 5) x the full cross {sync, --concurrency 1, --concurrency 2} x {no flag, --never-transcode, --ignore-sop-class, both} x acceptor policies (quick: accept all, refuse one class entirely (each), only Implicit LE of the other class; the second file set only on the async paths with exactly one flag; thorough: every subset), all associations of a run served concurrently. One tool process per case; distinct by case id; non-trivial = the association request was received and matched the expected proposal",
     );
     check.assume("vx-ref data set codec/strict parser, the PDU/DIMSE codec and the PackBits encoder of this crate (PS3.5 Annex G) are the trusted base");
-    check.assume("admissible context for a file = accepted, abstract syntax = the file's SOP class, and transfer syntax = the file's own, or both uncompressed, or (unless --never-transcode) an uncompressed one the tool offers to transcode a decodable file into");
+    check.assume("--ignore-sop-class is documented as 'ignore SOP class in presentation context selection': with it a file may travel on an accepted context of any abstract syntax (the command still names the file's SOP class), the transfer syntax rules are unchanged");
+    check.assume("admissible context for a file = accepted, abstract syntax = the file's SOP class (any with --ignore-sop-class), and transfer syntax = the file's own, or both uncompressed, or (unless --never-transcode) an uncompressed one the tool offers to transcode a decodable file into");
     let exe = vx_tools::tool_path("dicom-storescu");
     let scratch = check.scratch_dir();
     let cases = build_cases(&check);
